@@ -98,21 +98,57 @@ Theorem C02_no_panic_extract_and_set : forall ok data eb ew meta fuel, (length d
   (steps_of (extract_and_set ok fuel data eb ew meta) <= length data + 2)%nat.
 Proof. intros. apply extract_and_set_spec. assumption. Qed.
 
-(* ---- the extract*Offsets walkers (index structure and termination only) ---- *)
-Theorem C02_no_panic_walker : forall major oks data fuel, oks <> [] -> (length data < fuel)%nat ->
-  bad (walker major oks fuel data) = false /\ forall k, walker major oks fuel data = Val k -> (k <= length data)%nat.
-Proof. exact walker_spec. Qed.
-Theorem C02_no_panic_extract_offsets : forall data fuel, (length data < fuel)%nat ->
-  bad (extract_metadata_offsets fuel data) = false /\ bad (extract_datum_offsets fuel data) = false /\
-  bad (extract_redeemer_array_offsets fuel data) = false /\ bad (extract_witness_component_offsets fuel data) = false /\
-  bad (extract_output_offsets_scan fuel data) = false.
+(* ---- the offset walkers of ledger/common (current tree), with the offsets they return.
+   `isval r = true`: r is a value (in particular neither Panic nor OutOfFuel); ticks = loop
+   iterations made, nested loops included ---- *)
+Theorem C02_no_panic_skip_tags : forall data fuel, (length data < fuel)%nat ->
+  exists d skipped steps, skip_tags fuel data 0 0 = Val (d, skipped, steps) /\ (steps + length d <= length data)%nat.
 Proof.
-  intros data fuel Hf. repeat split; apply walker_spec; try exact Hf; discriminate.
+  intros data fuel Hf. destruct (skip_tags_spec fuel data 0 0 Hf) as (d & ts & k & E & _ & _ & H).
+  exists d, ts, k. split; [exact E|lia].
 Qed.
-Theorem C02_no_panic_redeemer_inner : forall v, bad (redeemer_inner v) = false.
-Proof. exact redeemer_inner_no_bad. Qed.
+Theorem C02_no_panic_array_header_size_of : forall data len, exists h, array_header_size_of data len = Val h.
+Proof. exact array_header_size_of_val. Qed.
+(* extractDatumOffsets, extractRedeemerOffsets (both layouts), extractScriptArrayOffsets *)
+Theorem C02_no_panic_witness_component_walkers : forall data fuel base, (length data < fuel)%nat ->
+  (isval (datum_offsets fuel data base) = true /\
+   forall es t, datum_offsets fuel data base = Val (es, t) -> (t <= length data)%nat) /\
+  (isval (redeemer_offsets fuel data base) = true /\
+   forall es t, redeemer_offsets fuel data base = Val (es, t) -> (t <= length data)%nat) /\
+  (forall ty, isval (script_offsets fuel ty data base) = true /\
+     (all_bytes data -> forall es t, script_offsets fuel ty data base = Val (es, t) -> (t <= 2 * length data)%nat)).
+Proof.
+  intros data fuel base Hf. split; [apply datum_offsets_spec; exact Hf|]. split; [apply redeemer_offsets_spec; exact Hf|].
+  intros ty. apply script_offsets_spec; exact Hf.
+Qed.
+(* extractWitnessComponentOffsets (calls the three above on the values) *)
+Theorem C02_no_panic_witness_components : forall data fuel base, (length data < fuel)%nat ->
+  isval (witness_components fuel data base) = true /\
+  (all_bytes data -> forall es t, witness_components fuel data base = Val (es, t) -> (t <= 3 * length data)%nat).
+Proof. intros. apply witness_components_spec. assumption. Qed.
+(* both copies of extractOutputOffsets (heur = true: the one with the backward adjustment) *)
+Theorem C02_no_panic_output_offsets : forall heur body fuel body_off, (length body < fuel)%nat ->
+  isval (output_offsets heur fuel body body_off) = true /\
+  (all_bytes body -> forall es t, output_offsets heur fuel body body_off = Val (es, t) -> (t <= 2 * length body)%nat).
+Proof. intros. apply output_offsets_spec. assumption. Qed.
 Theorem C02_no_panic_adjust_output_offset : forall body bo op, bad (adjust_output_offset body bo op) = false.
 Proof. exact adjust_output_no_bad. Qed.
+Theorem C02_no_panic_metadata_offsets : forall data fuel base, (length data < fuel)%nat ->
+  isval (metadata_offsets fuel data base) = true /\
+  forall es t, metadata_offsets fuel data base = Val (es, t) -> (t <= length data)%nat.
+Proof. intros. apply metadata_offsets_spec. assumption. Qed.
+(* ExtractTransactionOffsets (streaming = false) and StreamingBlockDecoder.DecodeWithOffsets (true), Shelley+ and
+   EBB layouts: a value or an error for every byte string, within 6 * len loop iterations in total *)
+Theorem C02_no_panic_extract_offsets : forall streaming data fuel, all_bytes data -> (length data < fuel)%nat ->
+  bad (extract_offsets streaming fuel data) = false /\
+  forall txs t, extract_offsets streaming fuel data = Val (XDone txs t) -> (t <= 6 * length data)%nat.
+Proof. intros. apply extract_offsets_spec; assumption. Qed.
+(* Extract{TransactionBody,Witness,Output}Cbor on any offsets (block below 4 GiB) *)
+Theorem C02_no_panic_extract_cbor : forall data off len, N.of_nat (length data) < two32 -> bad (extract_cbor data (off, len)) = false.
+Proof. exact extract_cbor_no_bad. Qed.
+(* StreamDecoder.DecodeArrayItems (+ cborArrayHeaderSizeFromBytes) *)
+Theorem C02_no_panic_decode_array_items : forall data abs, bad (decode_array_items data abs) = false.
+Proof. exact decode_array_items_no_bad. Qed.
 
 (* ---- muxer.readLoop framing ---- *)
 Theorem C02_no_panic_mux_read : forall conn fuel, all_bytes conn -> (length conn < 9 * fuel)%nat ->
@@ -134,24 +170,42 @@ Proof.
 Qed.
 
 (* ---- protocol.readLoop buffer handling (contract of the library: NumBytesRead <= len) ---- *)
-Theorem C02_no_panic_proto_read : forall lib, (forall buf n k, lib buf = Some (n, k) -> (n <= length buf)%nat) ->
-  forall fuel buf, (length buf < fuel)%nat ->
-  bad (proto_read lib fuel buf 0) = false /\ forall m, proto_read lib fuel buf 0 = Val m -> (m <= length buf)%nat.
+Theorem C02_no_panic_proto_read : forall lib typ, (forall buf n k first, lib buf = LMsg n k first -> (n <= length buf)%nat) ->
+  forall fuel segs, (length (concat segs) < fuel)%nat ->
+  bad (proto_read lib typ fuel segs 0 [] []) = false /\
+  forall ms e, proto_read lib typ fuel segs 0 [] [] = Val (ms, e) -> (length ms <= length (concat segs))%nat.
 Proof.
-  intros lib H fuel buf Hf. destruct (proto_read_spec lib H fuel buf 0%nat Hf) as [B R]. split; [exact B|].
-  intros m E. specialize (R m E). lia.
+  intros lib typ H fuel segs Hf. destruct (proto_read_spec lib typ H fuel segs 0%nat [] []) as [B R]; [cbn [length]; lia|].
+  split; [apply isval_bad; exact B|]. intros ms e E. specialize (R ms e E). cbn [length] in R. lia.
 Qed.
+(* ... and with the Lib parser in the place of the library the contract is a theorem *)
+Theorem C02_no_panic_proto_read_cbor : forall fuel segs, (length (concat segs) < fuel)%nat ->
+  bad (proto_read lib_cbor typ_cbor fuel segs 0 [] []) = false.
+Proof. intros fuel segs Hf. apply (C02_no_panic_proto_read lib_cbor typ_cbor lib_cbor_within fuel segs Hf). Qed.
 
-(* ---- cbor.ParseDiagnostic: index safety for EVERY fuel; termination is NOT proved for this walker ---- *)
-Theorem C02_no_index_panic_parse_diagnostic : forall ok data fuel, panics (parse_diagnostic ok fuel data) = false.
-Proof. exact parse_diagnostic_no_panic. Qed.
+(* ---- cbor.ParseDiagnostic ---- *)
+(* index safety for EVERY fuel *)
+Theorem C02_no_index_panic_parse_diagnostic : forall ok data fuel, panics (fst (parse_diagnostic ok fuel data)) = false.
+Proof. intros ok data fuel. apply (parse_diagnostic_spec ok data fuel). Qed.
+(* step bound for EVERY fuel and every outcome: at most len + 1 parseDiagnosticNode calls are ever made *)
+Theorem C02_steps_parse_diagnostic : forall ok data fuel, (snd (parse_diagnostic ok fuel data) <= length data + 1)%nat.
+Proof. intros ok data fuel. apply (parse_diagnostic_spec ok data fuel). Qed.
+(* termination: with fuel 2 * len + 1 (what the correspondence uses) the fuel is never exhausted *)
+Theorem C02_no_panic_parse_diagnostic : forall ok data fuel, (2 * length data + 1 <= fuel)%nat ->
+  bad (fst (parse_diagnostic ok fuel data)) = false.
+Proof.
+  intros ok data fuel Hf. apply bad_split. destruct (parse_diagnostic_spec ok data fuel) as (P & _ & O). split; [exact P|exact (O Hf)].
+Qed.
 
 Print Assumptions C02_no_panic_info.
 Print Assumptions C02_no_panic_extract_and_set.
-Print Assumptions C02_no_panic_walker.
+Print Assumptions C02_no_panic_extract_offsets.
+Print Assumptions C02_no_panic_witness_components.
+Print Assumptions C02_no_panic_proto_read_cbor.
 Print Assumptions C02_no_panic_populate_from_bytes.
 Print Assumptions C02_alloc_mux_read.
-Print Assumptions C02_no_index_panic_parse_diagnostic.
+Print Assumptions C02_no_panic_parse_diagnostic.
+Print Assumptions C02_steps_parse_diagnostic.
 Print Assumptions C02_decode_id_agrees_with_C03.
 
 (* ---- non-vacuity: Panic and OutOfFuel are real values of the model (nothing is totalised away),
@@ -173,4 +227,19 @@ Example C02_extract_example :
   /\ st_of (extract_and_set any_ok 20 [131; 0; 130; 1; 2; 130; 3; 4] 2 2 true) = Val tt.
 Proof. vm_compute. split; reflexivity. Qed.
 Example C02_mux_example : mux_read 3 [0;0;0;0;0;2;0;1;7; 0;0;0;0;0;2;255;255;1] 0 [] = Val (1%nat, [65535; 1]).
+Proof. vm_compute. reflexivity. Qed.
+(* the diagnostic walker: too little fuel is visible as OutOfFuel, enough fuel gives the tree; 3 nodes = 3 calls *)
+Example C02_diag_example :
+  fst (parse_diagnostic any_ok 2 [130; 1; 2]) = OutOfFuel /\
+  parse_diagnostic any_ok 7 [130; 1; 2] = (Val (DN 0 3 [DN 1 1 []; DN 2 1 []]), 3%nat) /\
+  parse_diagnostic any_ok 7 [130; 1] = (Err, 3%nat).
+Proof. vm_compute. repeat split. Qed.
+(* [hdr, [{1: [[h'00', 1]]}], [{4: 258([5])}], {}] : one body with one output, one witness set with one tagged datum *)
+Example C02_offsets_example :
+  extract_offsets false 40 [132; 128; 129; 161; 1; 129; 130; 65; 0; 1; 129; 161; 4; 217; 1; 2; 129; 5; 160] =
+  Val (XDone [mk_txloc (3, 7) (11, 7) (0, 0) [(6, 4)] [CDatum (17, 1) [5]]] 8).
+Proof. vm_compute. reflexivity. Qed.
+Example C02_proto_example :
+  proto_read lib_cbor typ_cbor 20 [[129; 0; 130]; [7]; [0; 255]] 0 [] [] =
+  Val ([(0%nat, (0, [129; 0])); (2%nat, (7, [130; 7; 0]))], Some 2%nat).
 Proof. vm_compute. reflexivity. Qed.
